@@ -4,6 +4,7 @@ import (
 	"fmt"
 	"go/token"
 	"go/types"
+	"strings"
 
 	"golang.org/x/tools/go/ssa"
 )
@@ -14,6 +15,24 @@ func (tr *fnTrans) setVal(v ssa.Value, s *Sort, body string) Term {
 	t := T(name, s)
 	tr.vals[v] = t
 	return t
+}
+
+// constVal: like setVal but the value is a constant with a defining equation (usable in patterns)
+func (tr *fnTrans) constVal(v ssa.Value, s *Sort, body string) Term {
+	name := tr.vname(v)
+	tr.declare(name, s)
+	tr.items = append(tr.items, item{fmt.Sprintf("(assert (= %s %s))", name, body), false})
+	t := T(name, s)
+	tr.vals[v] = t
+	return t
+}
+
+func constArray(es *Sort) (string, bool) {
+	z := zeroOf(es)
+	if strings.Contains(z, "_nil") && z != "Slice_nil" || strings.Contains(z, "str_empty") {
+		return "", false
+	}
+	return fmt.Sprintf("((as const (Array Int %s)) %s)", es.Name, z), true
 }
 
 func (tr *fnTrans) freshVal(v ssa.Value, s *Sort) Term {
@@ -46,7 +65,11 @@ func (tr *fnTrans) instr(b *ssa.BasicBlock, in ssa.Instruction) {
 		if es.Name == "ARRAY" {
 			name := "A_" + es.Elem.Tag()
 			tr.touchHeap(name, es.Elem, true)
-			tr.setHeap(name, store(tr.curHeap(name), id, fmt.Sprintf("((as const (Array Int %s)) %s)", es.Elem.Name, zeroOf(es.Elem))))
+			if ca, ok := constArray(es.Elem); ok {
+				h0 := tr.curHeap(name)
+				tr.setHeap(name, store(h0, id, ca))
+				tr.atStep(name, h0, tr.curHeap(name), app("=", "(sarr s!s)", id))
+			}
 		} else {
 			name := "H_" + es.Tag()
 			tr.touchHeap(name, es, false)
@@ -122,7 +145,7 @@ func (tr *fnTrans) instr(b *ssa.BasicBlock, in ssa.Instruction) {
 			name := "A_" + s.T.Elem.Tag()
 			tr.touchHeap(name, s.T.Elem, true)
 			tr.safe("index", and(app("<=", "0", idx), app("<", idx, slLen(s.S))), in.Pos())
-			tr.locs[in] = &Loc{heap: name, isArr: true, obj: slArr(s.S), idx: app("+", slOff(s.S), idx), root: s.T.Elem, val: s.T.Elem, nilOK: true}
+			tr.locs[in] = &Loc{heap: name, isArr: true, obj: slArr(s.S), idx: app("+", slOff(s.S), idx), root: s.T.Elem, val: s.T.Elem, nilOK: true, slice: s.S, sidx: idx}
 			return
 		}
 		// pointer to array
@@ -160,8 +183,12 @@ func (tr *fnTrans) instr(b *ssa.BasicBlock, in ssa.Instruction) {
 		id := tr.allocId()
 		name := "A_" + s.Elem.Tag()
 		tr.touchHeap(name, s.Elem, true)
-		tr.setHeap(name, store(tr.curHeap(name), id, fmt.Sprintf("((as const (Array Int %s)) %s)", s.Elem.Name, zeroOf(s.Elem))))
-		tr.setVal(in, s, mkSlice(id, "0", ln, cp))
+		if ca, ok := constArray(s.Elem); ok {
+			h0 := tr.curHeap(name)
+			tr.setHeap(name, store(h0, id, ca))
+			tr.atStep(name, h0, tr.curHeap(name), app("=", "(sarr s!s)", id))
+		}
+		tr.constVal(in, s, mkSlice(id, "0", ln, cp))
 	case *ssa.MakeInterface:
 		tr.makeInterface(in)
 	case *ssa.ChangeType:
